@@ -1,1 +1,55 @@
 // Kani contract harnesses for /repo/parquet/src/util/utf8.rs (child module: sees private items via super::)
+use super::*;
+#[path = "/verif/kani/support/spec.rs"]
+mod spec;
+#[allow(unused_imports)]
+use spec::*;
+
+fn is_continuation(b: u8) -> bool { b & 0xC0 == 0x80 }
+/// RFC 3629 well-formedness (Unicode Table 3-7), table walk
+fn wf_utf8(b: &[u8]) -> bool {
+    let n = b.len(); let mut i = 0;
+    while i < n {
+        let b0 = b[i];
+        let (need, lo, hi) =
+            if b0 < 0x80 { (0, 0x80, 0xBF) }
+            else if b0 >= 0xC2 && b0 <= 0xDF { (1, 0x80, 0xBF) }
+            else if b0 == 0xE0 { (2, 0xA0, 0xBF) }
+            else if (b0 >= 0xE1 && b0 <= 0xEC) || b0 == 0xEE || b0 == 0xEF { (2, 0x80, 0xBF) }
+            else if b0 == 0xED { (2, 0x80, 0x9F) }
+            else if b0 == 0xF0 { (3, 0x90, 0xBF) }
+            else if b0 >= 0xF1 && b0 <= 0xF3 { (3, 0x80, 0xBF) }
+            else if b0 == 0xF4 { (3, 0x80, 0x8F) }
+            else { return false; };
+        if i + need >= n && need > 0 { return false; }
+        if need >= 1 && !(b[i + 1] >= lo && b[i + 1] <= hi) { return false; }
+        if need >= 2 && !is_continuation(b[i + 2]) { return false; }
+        if need >= 3 && !is_continuation(b[i + 3]) { return false; }
+        i += need + 1;
+    }
+    true
+}
+
+// Contract (C08): check_valid_utf8(bytes) = Ok <=> bytes is well-formed UTF-8 per RFC 3629 / Unicode Table 3-7
+// (no overlong forms, no surrogates, nothing above U+10FFFF, no truncated sequence), for every byte string of
+// exactly N bytes. (Under Kani the crate is built with simdutf8 without its `std` feature, i.e. the portable fallback.)
+macro_rules! check_utf8_unit {
+    ($name:ident, $n:expr) => {
+        #[kani::proof]
+        #[kani::unwind(7)]
+        #[kani::stub(alloc::fmt::format, stub_format)]
+        fn $name() {
+            let b: [u8; $n] = kani::any();
+            let r = check_valid_utf8(&b);
+            let ok = r.is_ok();
+            std::mem::forget(r);
+            assert!(ok == wf_utf8(&b));
+            kani::cover!(ok && b[0] >= 0x80);
+            kani::cover!(!ok);
+        }
+    };
+}
+// @unit name=check_valid_utf8_len2 props=C08 kind=bounded bound=2_bytes fns=check_valid_utf8 timeout=600 tier=thorough
+check_utf8_unit!(check_valid_utf8_len2, 2);
+// @unit name=check_valid_utf8_len4 props=C08 kind=bounded bound=4_bytes fns=check_valid_utf8 timeout=900 mem=4 tier=thorough
+check_utf8_unit!(check_valid_utf8_len4, 4);
